@@ -1,6 +1,6 @@
 #!/usr/bin/env python3
 """usage: seed_keep.py <name e.g. C13-A> <srcdir> <letter> <pkgdir> <test pattern> <needs text> <prop> [<prop>...]
-Confirms a sub-agent's change in a scratch worktree, runs the named quick checks against it, and stores
+Confirms a sub-agent's change in a scratch worktree, runs the named quick checks against it (isolated copies), and stores
 patch, demonstration and meta.json under /verif/seeded/<name>/."""
 import sys, subprocess, json, os, shutil, re
 name, src, letter, pkg, pat, needs = sys.argv[1:7]
@@ -12,11 +12,11 @@ print("\n".join(clines))
 ok = conf.returncode == 0 and clines and clines[-1] == "CONFIRM: OK"
 if not ok:
     print("NOT CONFIRMED", conf.stdout[-1500:], conf.stderr[-500:]); sys.exit(1)
-ev = subprocess.run(["sh", "/verif/tools/seed_eval.sh", patch] + props, capture_output=True, text=True)
+ev = subprocess.run(["sh", "/verif/tools/seed_iso.sh", name, patch] + props, capture_output=True, text=True)
 print(ev.stdout)
 results = {}
 for l in ev.stdout.splitlines():
-    m = re.match(r"EVAL (\S+) exit=(\d+) (\d+) violation", l)
+    m = re.match(r"ISO \S+ (\S+) exit=(\d+) (\d+) violation", l)
     if m: results[m.group(1)] = {"exit": int(m.group(2)), "violation_lines": int(m.group(3))}
 viol = [l.strip() for l in ev.stdout.splitlines() if l.startswith("  ")][:6]
 d = f"/verif/seeded/{name}"
@@ -26,7 +26,7 @@ rd = f"{src}/README.md"
 if os.path.exists(rd): shutil.copy(rd, d + "/agent_README.md")
 meta = {"name": name, "breaks_property": name.split("-")[0], "needs_to_manifest": needs,
         "demo": {"place_in": pkg, "run": f"go test -count=1 -run '{pat}' ."},
-        "confirmed": clines, "checks_run": results, "sample_violations": viol,
+        "confirmed": clines, "how_checks_were_run": "tools/seed_iso.sh: quick checks of the committed /verif on a scratch worktree of /repo HEAD with the patch applied (neither /repo nor /verif touched)", "checks_run": results, "sample_violations": viol,
         "detected_by": [p for p, r in results.items() if r["exit"] == 1],
         "base_commit": subprocess.run(["git", "-C", "/repo", "rev-parse", "--short", "HEAD"], capture_output=True, text=True).stdout.strip()}
 json.dump(meta, open(d + "/meta.json", "w"), indent=1)
